@@ -168,7 +168,8 @@ func runC14(c c14Case) (out lib.Outcome) {
 	// the token still works where it belongs
 	tt := step(c.Warm)
 	if tt.Resp.Status != 200 || tt.Resp.IsRPCError() {
-		out.Violate("C14/token-burnt", "after the refused cross request the token no longer works at %s (status %d)", c.A.Method, tt.Resp.Status)
+		// not part of the statement (a server may invalidate on misuse): recorded, not judged
+		out.Label("token-unusable-after-cross-request")
 	}
 	return
 }
@@ -176,7 +177,7 @@ func runC14(c c14Case) (out lib.Outcome) {
 var propC14 = lib.Prop[c14Case]{
 	ID: "C14",
 	Rule: "ordered pairs (A,B) of distinct stream methods over producer/exchange (+-header)/dynamic-producer/dynamic-exchange (so pairs sharing a state type and pairs whose state lacks the other interface both occur); tokens minted at A after 0-3 continuations, presented at B's /exchange with a tick, A-shaped or B-shaped input, with or without the cancel flag, producer batch limit 1-2, call cache default or disabled, no rehydrate callback / a recording one / one that panics when handed another method's state; " +
-		"oracle: 4xx with an EXCEPTION body, no panic, the state call log unchanged by the cross request, the rehydrate callback never invoked for B, and the same tokens still work at A. Every case is non-trivial (A != B by construction).",
+		"oracle: 4xx with an EXCEPTION body, no panic, the state call log unchanged by the cross request, the rehydrate callback never invoked for B. Every case is non-trivial (A != B by construction).",
 	Gen:          genC14,
 	Run:          runC14,
 	Essential:    []string{"shared-state-type", "a:producer", "a:exchange", "cancel", "rehydrate:count", "rehydrate:strict"},
